@@ -214,6 +214,7 @@ Inductive act :=
 | EWake (is_retry : bool)
 | EIdleDecide
 | EIdleWrite
+| EClear
 | EFinish
 | Crash
 | Restart.
@@ -312,6 +313,16 @@ Definition step0 (tau : Z) (s : st) (a : act) : option st :=
                                          {| mail := mail v ; retries := retries v ; sched := sched v ;
                                             idle_cap := None ; marked := marked v |})
                             | None => (None, v)
+                            end)
+  | EClear =>
+      (* the clearing write of _IdleReleaseInternalRunAdapter.on_tick on its own (a store with latency
+         completes it some time before the tick is persisted); the tick actions below do the same
+         write when the loop is still marked, so both granularities are traces of the model *)
+      with_head s (fun v => match idle_cap v, marked v with
+                            | None, true => (Some (fun s' => set_idle_since s' None),
+                                             {| mail := mail v ; retries := retries v ; sched := sched v ;
+                                                idle_cap := None ; marked := false |})
+                            | _, _ => (None, v)
                             end)
   | EFinish =>
       match busy s, loops s with
